@@ -112,6 +112,13 @@ Inductive route :=
 | RApp (full : bool) (tf : bool) (fail : failresp) (lockmw confirmmw remembermw expiremw : bool)
 | RUnknown.
 
+(* authboss.Middleware / authboss.MountedMiddleware (authboss.go:164-182), the v1 signatures: they
+   only translate their booleans into the requirement set and refusal mode of MountedMiddleware2.
+   RespondUnauthorized is not expressible through them. *)
+Definition RAppMountedV1 (mountpathed redirect_to_login force_full force_2fa lockmw confirmmw remembermw expiremw : bool) : route :=
+  RApp force_full force_2fa (if redirect_to_login then RespRedirect else RespNotFound) lockmw confirmmw remembermw expiremw.
+Definition RAppV1 := RAppMountedV1 false.
+
 Record request := mkRequest {
   q_browser : bytes;
   q_meth : meth;
